@@ -148,4 +148,77 @@ pub fn gen(out: &mut dyn Write, family: &str, thorough: bool, seed: u64) {
         };
         writeln!(out, "{}", c.to_line(oracle)).unwrap();
     }
+    // scale: sizes at which narrow integer types inside the trainer would wrap
+    let tok_line = |r: &mut Rng, n_chars: usize, alpha: &[char]| -> String {
+        let mut s = String::new();
+        let mut k = 0;
+        while k < n_chars {
+            let l = (r.range(1, 6) as usize).min(n_chars - k);
+            if k > 0 {
+                s.push(' ');
+            }
+            for _ in 0..l {
+                s.push(*r.pick(alpha));
+            }
+            k += l;
+        }
+        s
+    };
+    match family {
+        "C09" => {
+            // windows beyond 127 with sentences longer than the window: relative positions need more than 8 bits
+            for (cw, tw) in [(140u8, 2u8), (2, 200), (255, 1)] {
+                let c = TrCase {
+                    cw, cn: 2, tw, tn: 1, ml: 2, solver: 1,
+                    dict: vec!["ab".into()], tagdict: vec![],
+                    corpus: (0..3).map(|_| ('t', tok_line(&mut r, 300, &['a', 'b', 'あ']))).collect(),
+                    eval: (0..2).map(|_| tok_line(&mut r, 290, &['a', 'b', 'あ']).replace(' ', "")).collect(),
+                    trace: None,
+                };
+                writeln!(out, "{}", c.to_line(oracle)).unwrap();
+            }
+        }
+        "C11" => {
+            // dictionary words of 255, 256, 257 characters that occur in the corpus
+            for len in [255usize, 256, 257] {
+                let w: String = (0..len).map(|i| ['a', 'b'][i % 2]).collect();
+                let line = format!("あ {w} い {w} あい");
+                let c = TrCase {
+                    cw: 2, cn: 2, tw: 2, tn: 2, ml: 4, solver: [1u8, 5, 0][len % 3],
+                    dict: vec![w.clone(), "あ".into()], tagdict: vec![],
+                    corpus: vec![('t', line.clone()), ('t', "い あ あ い".into())],
+                    eval: vec![format!("あ{w}い"), "あい".into()],
+                    trace: None,
+                };
+                writeln!(out, "{}", c.to_line(oracle)).unwrap();
+            }
+        }
+        "C10" => {
+            // more than 2^16 annotated boundaries in one trainer (oracle-only: the stored examples against the enumeration)
+            let c = TrCase {
+                cw: 2, cn: 2, tw: 1, tn: 1, ml: 2, solver: 5,
+                dict: vec!["ab".into(), "あ".into()], tagdict: vec![],
+                corpus: (0..(if thorough { 1400 } else { 700 })).map(|i| if i % 9 == 0 {
+                    // partial annotation: '-' inside tokens, '|' between them, now and then an unannotated boundary
+                    let t = tok_line(&mut r, 100, &['a', 'b', 'あ', '漢']);
+                    let mut p = String::new();
+                    let cs: Vec<char> = t.chars().collect();
+                    for (k, &ch) in cs.iter().enumerate() {
+                        if ch == ' ' {
+                            continue;
+                        }
+                        if k > 0 {
+                            p.push(if cs[k - 1] == ' ' { '|' } else if k % 11 == 0 { ' ' } else { '-' });
+                        }
+                        p.push(ch);
+                    }
+                    ('p', p)
+                } else { ('t', tok_line(&mut r, 100, &['a', 'b', 'あ', '漢'])) }).collect(),
+                eval: vec!["abあ漢".into()],
+                trace: None,
+            };
+            writeln!(out, "BIG {}", c.to_line(oracle)).unwrap();
+        }
+        _ => {}
+    }
 }
